@@ -269,7 +269,18 @@ def install(dfols):
         t = _sink()
         real_change(self, k, x, rvec, eval_num, allow_kopt_update=allow_kopt_update)
         if t is not None:
-            t.emit("chg", int(k), int(eval_num), 1 if allow_kopt_update else 0, fkey(self.objval[k]), t.src_of(rvec, first=True), int(self.kopt))
+            src = t.src_of(rvec, first=True)
+            t.emit("chg", int(k), int(eval_num), 1 if allow_kopt_update else 0, fkey(self.objval[k]), src, int(self.kopt))
+            if t.h is not None and src:
+                # the stored objective must be sum(r^2) + h AT THE EVALUATED POINT (the argument the objective really received)
+                c = t.calls[src - 1]
+                try:
+                    want = float(c["v"])          # sum(r^2) + h(x) with x the argument that call received (harness record)
+                    got = float(self.objval[k])
+                    if want == want and got == got and abs(got - want) > 1e-9 * (1.0 + abs(want)):
+                        t.warnings.append(("stored-objective-not-at-evaluated-point", int(eval_num), got, want))
+                except Exception:
+                    pass
             if t.control is not None:
                 t.emit("rad", float(t.control.delta), float(t.control.rho))
     Md.change_point = change
